@@ -101,6 +101,8 @@ type Prog map[string][]Op
 type Config struct {
 	Prog  Prog   `json:"prog"`
 	Start string `json:"start"`
+	// Shared: the actors always share one Cache value (a driver-made configuration about goroutines of one process)
+	Shared bool `json:"shared,omitempty"`
 }
 
 // source reader with a scripted second pass
@@ -477,7 +479,7 @@ func runOne(family, mode string, cfg Config, strat vsched.Strategy, inj *Inject)
 	// every other run each actor has a Cache value of its own on the directory (as the processes of a build have);
 	// in the others they share one (as the goroutines of one process do)
 	handles := map[string]*cache.Cache{}
-	own := atomic.AddInt64(&handleSeq, 1)%2 == 1
+	own := atomic.AddInt64(&handleSeq, 1)%2 == 1 && !cfg.Shared
 	for _, a := range names {
 		handles[a] = c
 		if own {
@@ -626,7 +628,7 @@ func main() {
 	}
 	if *mode == "conc-dfs" || *mode == "conc-random" {
 		// lookups of two different stored ids at the same time, nobody writing: each gets its own entry
-		configs = append(configs, Config{Start: "both", Prog: Prog{
+		configs = append(configs, Config{Start: "both", Shared: true, Prog: Prog{
 			"w1": {{Op: "getbytes", ID: "i1"}, {Op: "getfile", ID: "i1"}},
 			"w2": {{Op: "getfile", ID: "i2"}, {Op: "getbytes", ID: "i2"}},
 			"r1": {{Op: "getbytes", ID: "i2"}, {Op: "getbytes", ID: "i1"}}}})
@@ -719,6 +721,18 @@ func main() {
 			}
 			col.add(runOne("C11", "random", cfg, st, nil))
 			res.Eval(true)
+		}
+		// the configurations the driver adds itself (few operations, the interesting window is two steps wide): many
+		// short runs with frequent switches
+		for _, cfg := range configs {
+			if !cfg.Shared {
+				continue
+			}
+			for i := 0; i < 600; i++ {
+				col.add(runOne("C11", "random", cfg, &vsched.Random{R: rand.New(rand.NewSource(rng.Int63())), Stay: 15}, nil))
+				res.Eval(true)
+				res.Count("random_runs_shared_value", 1)
+			}
 		}
 		res.Count("random_runs", int64(*runs))
 	case "crash":
